@@ -259,7 +259,14 @@ func loadReplay[C any](path string) (Replay, C, error) {
 func safeRun[C any](s Spec[C], c C) (info Info, err error) {
 	defer func() {
 		if r := recover(); r != nil {
-			err = fmt.Errorf("panic: %v\n%s", r, debug.Stack())
+			fmt.Fprintf(os.Stderr, "panic in case: %v\n%s\n", r, debug.Stack())
+			err = fmt.Errorf("panic: %v", r)
+		}
+		if err != nil && strings.HasPrefix(err.Error(), "harness:") {
+			// a defect of the harness or an unsound generated input, never a property violation
+			cb, _ := json.Marshal(c)
+			fmt.Printf("HARNESS-ERROR property=%s part=%s: %v\ncase: %s\n", s.Property, s.Part, err, cb)
+			os.Exit(3)
 		}
 	}()
 	return s.Run(c)
